@@ -74,6 +74,9 @@ def body(scn):
     c0, cs0 = float(c(pr[0])[0]), float(c(pr[1])[0])
     ambiguous = abs(c0) <= MARGIN or abs(cs0) <= MARGIN
     infeasible = c0 > MARGIN or cs0 > MARGIN
+    if infeasible and scn["cons"].get("ret") == "nanviol":
+        # the constraint is *undefined* (NaN) at the start: whether that start is to be rejected is not settled by the statement
+        ambiguous = True
     evals += 1
     rejected = tr.ctor_exc is not None and tr.ctor_exc["type"] == "ValueError" and (INFEASIBLE_MSG in tr.ctor_exc["msg"] or SNAP_MSG in tr.ctor_exc["msg"])
     if ambiguous:
